@@ -653,7 +653,6 @@ func (ev *c08Eval) classify(op string, a, b c08Val) {
 		if a.K == "err" || b.K == "err" {
 			return
 		}
-		isEq := op == "eq" || op == "ne"
 		ka, kb := a.K, b.K
 		has := func(k string) bool { return ka == k || kb == k }
 		switch {
@@ -663,24 +662,14 @@ func (ev *c08Eval) classify(op string, a, b c08Val) {
 			}
 		case ka == "text" && kb == "text":
 			// (= and <> are typed and case-insensitive since the fix-window repair of calcEq/calcNEq)
-			if !isEq && strings.Compare(a.S, b.S) != strings.Compare(c08Upper(a.S), c08Upper(b.S)) {
-				ev.dev("cmp:text-case")
-			}
 		case has("bool") && !(ka == "bool" && kb == "bool"):
-			if isEq {
-				// Value() strings: "TRUE"/"FALSE" against the other side's text
-				o := a
-				bv := b
-				if ka == "bool" {
-					o, bv = b, a
-				}
-				switch o.K {
-				case "blank":
-					if !bv.B {
-						ev.dev("cmp:bool-as-number")
-					}
-				}
-			} else {
+			// typed order since the fix-window repair; what is left: a blank operand is turned into
+			// the number 0 first, so blank vs FALSE compares as number < logical instead of equal
+			o, bv := a, b
+			if ka == "bool" {
+				o, bv = b, a
+			}
+			if o.K == "blank" && !bv.B {
 				ev.dev("cmp:bool-as-number")
 			}
 		case has("num") && has("text") || has("blank") && has("text"):
